@@ -216,7 +216,6 @@ var violationKey = map[string]string{
 	"content-length-empty":         "h3headers/content-length-empty-accepted",
 }
 
-func onlySize(v []string) bool { return len(v) == 1 && v[0] == "size" }
 
 func fieldsText(fs []hf) string {
 	s := make([]string, len(fs))
